@@ -223,6 +223,9 @@ func (g *Gen) exoticise(op *Op) {
 		if r.Intn(2) == 0 {
 			op.At, op.Mt = exoticTimes[r.Intn(len(exoticTimes))], exoticTimes[r.Intn(len(exoticTimes))]
 		}
+		if r.Intn(3) == 0 {
+			op.Zone = []int{7200, -18000, 19800, 45 * 60}[r.Intn(4)]
+		}
 	case "chmod", "mkdir", "mkdirall":
 		if r.Intn(3) == 0 {
 			op.Perm = exoticPerms[r.Intn(len(exoticPerms))]
@@ -394,6 +397,9 @@ func (g *Gen) next(t Tree) Op {
 			if r.Intn(4) == 0 && acc != os.O_RDONLY {
 				fl |= os.O_APPEND
 			}
+			if r.Intn(6) == 0 {
+				fl |= os.O_SYNC // synchronous I/O changes nothing a caller can observe
+			}
 			if fl&os.O_CREATE != 0 && r.Intn(5) == 0 {
 				fl |= os.O_EXCL
 			}
@@ -445,6 +451,9 @@ func (g *Gen) next(t Tree) Op {
 				case 2:
 					fl |= os.O_APPEND
 				}
+			}
+			if r.Intn(6) == 0 {
+				fl |= os.O_SYNC // synchronous I/O changes nothing a caller can observe
 			}
 			if fl&os.O_CREATE != 0 && r.Intn(5) == 0 {
 				fl |= os.O_EXCL
